@@ -175,7 +175,8 @@ def execute(case):
       yield
       return None
     daglish_legacy.memoized_traverse(count, root)
-    obs['legacy_memo_visits_once'] = all(v == 1 for v in visits.values()) and len(visits) == len(heap['objs'])
+    reach = {enc.ids.get(id(v), -1) for v, _ in ind if not graphs.is_atom(v)}
+    obs['legacy_memo_visits_once'] = all(v == 1 for v in visits.values()) and set(visits) == reach
   except Exception as e:
     obs['legacy_equal'] = f'raised {type(e).__name__}'
   try:
